@@ -63,7 +63,7 @@ class Projector:
             return {'op': 'emptyclosure'}
         if T == 'Constant':
             if isinstance(m.literal, str):
-                raise Unsupported('constant (string literal: interpolation/evaluation is C17, not modelled in the machine)')
+                return {'op': 'oconst'}        # evaluated value comes from the recorded "const" event
             return {'op': 'const', 'v': val(m.literal)}
         if T == 'Sequence':
             return {'op': 'seq', 'es': [self.exp(x, depth + 1) for x in m.sequence]}
@@ -144,11 +144,38 @@ def _rx(x):
     return x if isinstance(x, re.Pattern) else re.compile(str(x))
 
 
+_BOOT: dict = {}
+
+
+def boot_rules():
+    """The rules of TatSu's own grammar (tatsu/_tatsu.ebnf, compiled and optimized): the grammar the checked-in bootstrap parser is
+    supposed to implement.  Validating the bootstrap parser's executions against PegMachine instantiated with THIS grammar is C15
+    stated on the specification."""
+    if 'rules' not in _BOOT:
+        import os
+        import tatsu
+        _BOOT['busy'] = True
+        try:
+            src = open(os.path.join(os.path.dirname(tatsu.__file__), '_tatsu.ebnf'), encoding='utf-8').read()
+            model = tatsu.compile(src, name='TatSuVerifBoot')
+            _BOOT['rules'] = {r.name: r for r in model.rules}      # the code generator walks the model as written (not optimized)
+        finally:
+            _BOOT['busy'] = False
+    return _BOOT['rules']
+
+
 def project(ctx):
-    """A live parse context (model interpreter) -> dict(g, cfg, inp) or raises Unsupported."""
+    """A live parse context (model interpreter, or the bootstrap parser) -> dict(g, cfg, inp) or raises Unsupported."""
     rulemap = getattr(ctx, '_rulemap', None)
+    backend = 'model'
     if not rulemap:
-        raise Unsupported('generated parser (no grammar model in the context)')
+        backend = 'gen'
+        if _BOOT.get('busy'):
+            raise Unsupported('(internal) compiling the TatSu grammar for the bootstrap traces')
+        if any(c.__name__ == 'TatSuBootstrapParser' for c in type(ctx).__mro__):
+            rulemap = boot_rules()
+        else:
+            raise Unsupported('generated parser other than the bootstrap parser (no grammar model in the context)')
     cfg0 = ctx.config
     inp = ctx.cursor.input
     text = inp.textstr
@@ -209,6 +236,6 @@ def project(ctx):
         'alpha': [c for c in chars if c.isalpha()], 'alnum': [c for c in chars if c.isalnum()],
         'fold': [[c, c.lower()] for c in chars if c.lower() != c and len(c.lower()) == 1],
         'keywords': [list(k) for k in kws], 'act': 'oracle' if cfg0.semantics is not None else 'none', 'actrule': '*', 'lr': bool(cfg0.left_recursion),
-        'memoize': bool(cfg0.memoization), 'prune': bool(cfg0.prune_memos_on_cut), 'maxmiss': 100000,
+        'memoize': bool(cfg0.memoization), 'prune': bool(cfg0.prune_memos_on_cut), 'maxmiss': 100000, 'backend': backend,
     }
     return {'g': g, 'cfg': cfg, 'inp': list(text)}
